@@ -112,7 +112,10 @@ func (rp *runnablePacker[I, O, TOption]) toComposableRunnable() *composableRunna
 	i := func(ctx context.Context, input any, opts ...any) (output any, err error) {
 		in, ok := input.(I)
 		if !ok {
-			panic(newUnexpectedInputTypeErr(inputType, reflect.TypeOf(input)))
+			// a nil value of an interface-typed input carries no dynamic type: it is the zero value of I
+			if input != nil || inputType.Kind() != reflect.Interface {
+				panic(newUnexpectedInputTypeErr(inputType, reflect.TypeOf(input)))
+			}
 		}
 
 		tos, err := convertOption[TOption](opts...)
